@@ -147,6 +147,12 @@ static void next_lookup(struct addr_query *aquery)
           end_aquery(aquery, status, host);
           return;
         }
+        /* Out of memory is not "no such host": ares_getnameinfo() would turn
+         * ARES_ENOTFOUND into a successful numeric answer */
+        if (status == ARES_ENOMEM) {
+          end_aquery(aquery, status, NULL);
+          return;
+        }
         break;
       default:
         break;
@@ -174,7 +180,8 @@ static void addr_callback(void *arg, ares_status_t status, size_t timeouts,
                                             (int)addrlen, AF_INET6, &host);
     }
     end_aquery(aquery, status, host);
-  } else if (status == ARES_EDESTRUCTION || status == ARES_ECANCELLED) {
+  } else if (status == ARES_EDESTRUCTION || status == ARES_ECANCELLED ||
+             status == ARES_ENOMEM) {
     end_aquery(aquery, status, NULL);
   } else {
     next_lookup(aquery);
